@@ -347,8 +347,8 @@ var zooTypeExprs = []string{
 	"Int?", "Int??", "[Int]", "[[String]]", "[Int; 3]", "[[Int8; 2]; 0]", "{String: Int}", "{Address: [Bool]}", "{Zoo.E: {Int: String}}",
 	"Zoo.S", "Zoo.Wide", "Zoo.E", "Zoo.BigE", "Zoo", "&Zoo.At", "&Zoo.SAt",
 	"{Zoo.SI}", "@{Zoo.RI}", "{Zoo.SI, Zoo.SJ}",
-	"&Int", "&[Int]", "&Zoo.R", "&{Zoo.RI}", "auth(Zoo.X) &Zoo.R", "auth(Zoo.X, Zoo.Y) &Zoo.R", "auth(Zoo.X | Zoo.Y) &Zoo.R",
-	"auth(Mutate) &[Int]", "auth(Insert, Remove) &{String: Int}", "auth(Storage) &Account", "auth(SaveValue | LoadValue) &Account", "&AnyStruct?", "(&AnyResource)?",
+	"&Int", "&[Int]", "&Zoo.R", "&{Zoo.RI}", "auth(Zoo.X) &Zoo.R", "auth(Zoo.X, Zoo.Y) &Zoo.R", "auth(Zoo.Y, Zoo.X) &Zoo.R", "auth(Zoo.X | Zoo.Y) &Zoo.R", "auth(Zoo.Y | Zoo.X) &{Zoo.RI}",
+	"auth(Mutate) &[Int]", "auth(Insert, Remove) &{String: Int}", "auth(Remove, Mutate, Insert) &[String]", "auth(Storage, Contracts, Keys, Inbox, Capabilities) &Account", "auth(Storage) &Account", "auth(SaveValue | LoadValue) &Account", "&AnyStruct?", "(&AnyResource)?",
 	"Capability", "Capability<&Zoo.R>", "Capability<auth(Zoo.X) &{Zoo.RI}>", "Capability<&Account>",
 	"InclusiveRange<Int>", "InclusiveRange<UInt8>", "[InclusiveRange<Int64>]",
 	"@Zoo.R", "@[Zoo.R]", "@{String: Zoo.R}", "@Zoo.R?",
@@ -595,11 +595,11 @@ func (g *zooGen) capabilityEntries() {
 		Verify: fmt.Sprintf(`if let v = a.storage.copy<Capability<&Zoo.R>>(from: /storage/%s) { if !(v.id == %d && !v.check() && a.capabilities.storage.getController(byCapabilityID: %d) == nil) { bad.append("%s") } } else { bad.append("%s:missing") }`, p7, id7, id7, p7, p7)})
 	// an array of capabilities of different borrow types, typed `Capability`
 	id8, e8 := issue("&Zoo.R")
-	id9, e9 := issue("auth(Zoo.X, Zoo.Y) &Zoo.R")
+	id9, e9 := issue("auth(Zoo.Y, Zoo.X) &Zoo.R")
 	p8 := g.path()
 	g.out = append(g.out, ZooEntry{Name: p8, Kind: "capability-array",
 		Store: fmt.Sprintf("s.storage.save<[Capability]>([%s, %s], to: /storage/%s)", e8, e9, p8),
-		Verify: fmt.Sprintf(`if let v = a.storage.copy<[Capability]>(from: /storage/%s) { if !(v.length == 2 && v[0].id == %d && v[1].id == %d && v[1].getType() == Type<Capability<auth(Zoo.X, Zoo.Y) &Zoo.R>>()) { bad.append("%s") } } else { bad.append("%s:missing") }`, p8, id8, id9, p8, p8)})
+		Verify: fmt.Sprintf(`if let v = a.storage.copy<[Capability]>(from: /storage/%s) { if !(v.length == 2 && v[0].id == %d && v[1].id == %d && v[1].getType() == Type<Capability<auth(Zoo.Y, Zoo.X) &Zoo.R>>()) { bad.append("%s") } } else { bad.append("%s:missing") }`, p8, id8, id9, p8, p8)})
 }
 
 // GenZoo draws one zoo: the entries in storing order.
